@@ -1,1 +1,1067 @@
 """Rules for C01, C02, C06, C13, C14, C17, C20 (data flow, error discipline, configuration, client)."""
+
+from __future__ import annotations
+
+import ast
+import builtins
+import hashlib
+import io
+
+from . import facts as F
+from .engine import Analysis, CLS, PUBLIC_API
+from .loader import norm
+from .report import Rule
+from .rules_common import (MUT, primary, base_class, site_text, site_func, site_loc, resource_hits, func_nodes,
+                           ends_in_raise)
+from .rules_paths import Q, ALL_MODES, all_events, probe_atoms
+from .terms import AnalysisError, show, showv, tag, C, P, V, NONE, EMPTY, classify, subterms
+
+DOC_DEFAULTS = ["md5", "sha1", "sha256", "sha384", "sha512"]  # hashstore.py docstring of store_object
+
+
+def root_name(node):
+    """the Name at the bottom of a chain of attribute accesses / method calls"""
+    chain = []
+    while True:
+        if isinstance(node, ast.Call):
+            node = node.func
+        elif isinstance(node, ast.Attribute):
+            chain.append(node.attr)
+            node = node.value
+        else:
+            break
+    return (node.id if isinstance(node, ast.Name) else None), list(reversed(chain))
+
+
+def enclosing(node, types):
+    n = getattr(node, "_parent", None)
+    while n is not None:
+        if isinstance(n, types):
+            yield n
+        n = getattr(n, "_parent", None)
+
+
+def in_body(node, stmts):
+    return any(node is x for s in stmts for x in ast.walk(s))
+
+
+# =======================================================================================
+def check_C01(A: Analysis, tier):
+    rules = []
+    ra = Rule("C01", "C01.a", "every attribute Stream uses on the wrapped object belongs to the interface of the "
+              "stream type _check_arg_data admits, or is guarded (hasattr / try catching AttributeError)", floor=5)
+    cad = A.p.func(Q("_check_arg_data"))
+    admitted = sorted({norm(c.args[1]) for c in ast.walk(cad.node)
+                       if isinstance(c, ast.Call) and norm(c.func) == "isinstance" and len(c.args) == 2})
+    if not any("Buffered" in a or "IOBase" in a for a in admitted):
+        raise AnalysisError(f"_check_arg_data no longer admits a stream type (admits {admitted})")
+    iface = set()
+    for a in admitted:
+        if a.startswith("io."):
+            t = getattr(io, a[3:], None)
+            if t is not None:
+                iface |= set(dir(t))
+    st_cls = A.p.classes.get("Stream")
+    if st_cls is None:
+        raise AnalysisError("class Stream not found")
+    for f in [fn for fn in A.p.funcs.values() if fn.cls == "Stream"]:
+        for n in ast.walk(f.node):
+            if not isinstance(n, ast.Attribute) or not isinstance(n.ctx, ast.Load):
+                continue
+            wrapped = (isinstance(n.value, ast.Name) and n.value.id == "obj" and f.name == "__init__") or norm(n.value) == "self._obj"
+            if not wrapped:
+                continue
+            ra.ob()
+            ra.inst(f"{f.qual}: {norm(n)}")
+            if n.attr in iface:
+                continue
+            guarded = False
+            for t in enclosing(n, ast.Try):
+                if in_body(n, t.body):
+                    for h in t.handlers:
+                        names = ["BaseException"] if h.type is None else [norm(e) for e in (h.type.elts if isinstance(h.type, ast.Tuple) else [h.type])]
+                        if any(x in ("AttributeError", "Exception", "BaseException") for x in names):
+                            guarded = True
+            for i in enclosing(n, ast.If):
+                if in_body(n, i.body) and any(isinstance(c, ast.Call) and norm(c.func) == "hasattr" and len(c.args) == 2
+                                              and getattr(c.args[1], "value", None) == n.attr for c in ast.walk(i.test)):
+                    guarded = True
+            if not guarded:
+                ra.fail(f, n, f"`.{n.attr}` is not part of {admitted}'s interface and is not guarded for AttributeError: an in-memory "
+                        "buffered stream passes the argument check and then fails", A.p.loc(f, n))
+    rules.append(ra)
+
+    rb = Rule("C01", "C01.b", "Stream closes only what it opened, restores the caller's position otherwise, and every "
+              "Stream constructed in the package is wrapped in `with closing(...)`", floor=6)
+    init = A.p.func("Stream.__init__")
+    close = A.p.func("Stream.close")
+    # (i) pos = None only where Stream itself opened the object
+    for n in func_nodes(init, ast.Assign):
+        if len(n.targets) == 1 and isinstance(n.targets[0], ast.Name) and n.targets[0].id == "pos":
+            rb.ob()
+            rb.inst(f"Stream.__init__: {norm(n)}")
+            is_none = isinstance(n.value, ast.Constant) and n.value.value is None
+            blk = getattr(n, "_parent", None)
+            sibs = blk.body if in_body(n, getattr(blk, "body", [])) else getattr(blk, "orelse", [])
+            opened = any(isinstance(c, ast.Call) and norm(c.func) in ("io.open", "open") for s in sibs for c in ast.walk(s))
+            if is_none and not opened:
+                rb.fail(init, n, "position is recorded as None (= 'we opened it') on a branch that did not open the object: "
+                        "the caller's stream would be closed", A.p.loc(init, n))
+            if not is_none and opened:
+                rb.fail(init, n, "a file Stream opened itself is treated as caller-owned: it is never closed", A.p.loc(init, n))
+    # (ii)/(iii) close()
+    closes = [c for c in ast.walk(close.node) if isinstance(c, ast.Call) and norm(c.func) == "self._obj.close"]
+    seeks = [c for c in ast.walk(close.node) if isinstance(c, ast.Call) and norm(c.func) == "self._obj.seek"]
+    rb.inst(f"Stream.close: {len(closes)} close(), {len(seeks)} seek()")
+    rb.ob(2)
+    for c in closes:
+        ok = False
+        for i in enclosing(c, ast.If):
+            t = norm(i.test)
+            if (t == "self._pos is None" and in_body(c, i.body)) or (t == "self._pos is not None" and in_body(c, i.orelse)):
+                ok = True
+        if not ok:
+            rb.fail(close, c, "the wrapped object is closed although the caller may own it (not under `self._pos is None`)", A.p.loc(close, c))
+    if not closes:
+        rb.fail(close, "self._obj.close()", "a file opened by Stream is never closed", A.p.loc(close, close.node))
+    if not any(norm(c.args[0]) == "self._pos" for c in seeks if c.args):
+        rb.fail(close, "self._obj.seek(self._pos)", "the caller's stream is not returned to its original offset on close()", A.p.loc(close, close.node))
+    # (iv) construction sites
+    for f in A.p.funcs.values():
+        for n in func_nodes(f, ast.Assign):
+            if isinstance(n.value, ast.Call) and norm(n.value.func) == "Stream" and isinstance(n.targets[0], ast.Name):
+                v = n.targets[0].id
+                rb.ob()
+                rb.inst(f"{f.qual}: {norm(n)}")
+                blk = getattr(n, "_parent", None)
+                lst = None
+                for fld in ("body", "orelse", "finalbody"):
+                    if any(n is x for x in getattr(blk, fld, []) or []):
+                        lst = getattr(blk, fld)
+                rest = lst[[i for i, x in enumerate(lst) if x is n][0] + 1:] if lst else []
+                nxt = [s for s in rest if not (isinstance(s, ast.Expr) and isinstance(s.value, ast.Call)
+                                               and norm(s.value.func).startswith(("self.fhs_logger.", "logging.")))]
+                ok = nxt and isinstance(nxt[0], ast.With) and any(norm(i.context_expr) == f"closing({v})" for i in nxt[0].items)
+                if ok:
+                    later = [x for s in nxt[1:] for x in ast.walk(s) if isinstance(x, ast.Name) and x.id == v]
+                    ok = not later
+                if not ok:
+                    rb.fail(f, n, f"Stream `{v}` is not used exclusively inside `with closing({v})`: the file it opened (or the "
+                            "caller's offset) is not restored on every path", A.p.loc(f, n))
+    rules.append(rb)
+
+    rc = Rule("C01", "C01.c", "one pass: the same chunk is written to the temp file and fed to every hash object of "
+              "the per-call algorithm list; cid = digest under the store algorithm = the object's address; "
+              "ObjectMetadata fields are wired in order", floor=5)
+    for m in ("th",):
+        it = A.api("store_object", m)
+        wf = Q("_write_to_tmp_file_and_get_hex_digests")
+        writes = [e for e in it.events if e.kind == "WRITE" and e.prim == "file.write" and e.func.qual == wf]
+        upd = [e for e in it.events if e.kind == "HASHUPDATE" and e.func.qual == wf]
+        news = [e for e in it.events if e.kind == "HASHNEW" and e.func.qual == wf]
+        f = A.p.func(wf)
+        rc.ob(3)
+        wsites = {(e.line) for e in writes}
+        usites = {(e.line) for e in upd}
+        rc.inst(f"{wf}: write sites {sorted(wsites)}, hash update sites {sorted(usites)}")
+        if len(wsites) != 1 or len(usites) != 1:
+            rc.fail(f, "write/update in the stream loop", f"expected exactly one write and one hash update per chunk, found "
+                    f"{len(wsites)} / {len(usites)}", A.p.loc(f, f.node))
+        for w in writes:
+            for u in upd:
+                if w.ctx == u.ctx and w.paths[1] != u.paths[0]:
+                    rc.fail(f, u.node, f"the hash objects are fed {showv(u.paths[0])[:60]} but the temp file receives {showv(w.paths[1])[:60]}: "
+                            "the digest is not the digest of the stored bytes", A.p.loc(f, u.node))
+            if not all(tag(t) == "elem" and tag(t[1]) == "inst" and t[1][1] == "Stream" for t in w.paths[1]):
+                rc.fail(f, w.node, "what is written to the temp file is not the chunk read from the Stream", A.p.loc(f, w.node))
+        # hash update must be inside a loop over the full hash-object list
+        for u in upd[:1]:
+            loops = [l for l in enclosing(u.node, ast.For)]
+            ok = False
+            for l in loops:
+                tgt = norm(l.iter)
+                defs = [a for a in func_nodes(f, ast.Assign) if norm(a.targets[0]) == tgt and isinstance(a.value, ast.ListComp)]
+                if defs and any(norm(c.func) == "hashlib.new" for c in ast.walk(defs[0].value) if isinstance(c, ast.Call)):
+                    ok = True
+                    rc.inst(f"{wf}: every element of `{tgt}` updated per chunk")
+            rc.ob()
+            if not ok:
+                rc.fail(f, u.node, "the hash update is not inside a loop over the complete list of hash objects: some digests miss chunks", A.p.loc(f, u.node))
+        # digest map = zip(algorithm list, hexdigests of the hash objects built from that list)
+        for c in it.calls:
+            if c["callee"] == wf and c.get("ret"):
+                for t in c["ret"]:
+                    if tag(t) != "tuple":
+                        continue
+                    dm = t[1][0]
+                    rc.ob()
+                    rc.inst(f"{wf}: returns ({showv(dm)[:40]}, tmp name, size)")
+                    for d in dm:
+                        if tag(d) != "dictzip":
+                            rc.fail(f, "hex_digest_dict", "the digest map is not dict(zip(algorithms, hexdigests))", A.p.loc(f, f.node))
+                            continue
+                        algs = d[3]  # elements of the key list at the time of zip()
+                        hexs = set()
+                        for x in d[2]:
+                            hexs |= (x[1] if tag(x) == "listof" else {x})
+                        ok = bool(hexs) and all(tag(h) == "hexdigest" for h in hexs) and {h[1] for h in hexs if tag(h) == "hexdigest"} == set(algs)
+                        built = set()
+                        for e in news:
+                            if e.ctx[:len(c["ctx"])] == c["ctx"]:
+                                built |= e.paths[0]
+                        newok = built == set(algs)
+                        if not ok or not newok:
+                            rc.fail(f, "dict(zip(...))", "digest values are not the hexdigests of hash objects built, in order, from the same "
+                                    "algorithm list the keys come from: a digest would be reported under another algorithm's name", A.p.loc(f, f.node))
+                    if not all(tag(x) == "tmpname" for x in t[1][1]) or not all(tag(x) == "probe" and x[1] == "getsize" for x in t[1][2]):
+                        rc.fail(f, "return", "the (digests, temp name, size) tuple layout changed", A.p.loc(f, f.node))
+        # cid and address
+        for k, l, st, rv in it.exits:
+            if k != "return":
+                continue
+            for t in rv:
+                if tag(t) != "obj":
+                    continue
+                fields = dict(t[2])
+                rc.ob()
+                rc.inst(f"store_object returns ObjectMetadata(cid={showv(fields.get('cid', EMPTY))[:50]})")
+                cid = fields.get("cid", EMPTY)
+                okc = all(tag(x) == "item" and tag(x[1]) == "dictzip" and x[2] == ("selfattr", "algorithm") for x in cid) and cid
+                oks = all(tag(x) == "probe" and x[1] == "getsize" and all(classify(p_).cls == "TMP" for p_ in x[2]) for x in fields.get("obj_size", EMPTY))
+                okh = all(tag(x) == "dictzip" for x in fields.get("hex_digests", EMPTY))
+                if not okc:
+                    rc.fail(Q("store_object"), "ObjectMetadata.cid", f"the returned cid is {showv(cid)[:80]}, not the digest under the store algorithm")
+                if not oks:
+                    rc.fail(Q("store_object"), "ObjectMetadata.obj_size", "the returned size is not the measured size of the written temp file")
+                if not okh:
+                    rc.fail(Q("store_object"), "ObjectMetadata.hex_digests", "the returned hex_digests is not the digest map")
+        for ev in it.events:
+            if ev.kind == "RENAME" and ev.func.qual == Q("_move_and_get_checksums"):
+                for c in primary(ev.classes[1]):
+                    if c.cls == "OBJ":
+                        rc.ob()
+                        rc.inst(f"object published at {c!r}")
+                        if not (tag(c.key) == "item" and tag(c.key[1]) == "dictzip" and c.key[2] == ("selfattr", "algorithm")):
+                            rc.fail(ev.func, ev.node, f"the object is published at {c!r}: not the address of its digest under the store algorithm",
+                                    A.p.loc(ev.func, ev.node))
+    rules.append(rc)
+    return rules
+
+
+# =======================================================================================
+MUTATORS = {"append", "extend", "insert", "remove", "pop", "clear", "sort", "reverse", "add", "update", "discard"}
+FRESH_CALLS = {"list", "set", "sorted", "tuple", "frozenset", "dict", "copy.copy", "copy.deepcopy"}
+
+
+def check_C02(A: Analysis, tier):
+    rules = []
+    ra = Rule("C02", "C02.a", "no function mutates the instance/class algorithm tables or the required-key table, "
+              "directly or through a local alias", floor=3)
+    protected = {"default_algo_list", "other_algo_list", "property_required_keys"}
+    definers = {Q("_set_default_algorithms")}
+
+    def prot_expr(n):
+        return isinstance(n, ast.Attribute) and n.attr in protected and isinstance(n.value, ast.Name) and n.value.id in ("self", CLS, "cls")
+
+    for f in [fn for fn in A.p.funcs.values() if fn.cls == CLS]:
+        aliases = {}
+        nodes = sorted([n for n in ast.walk(f.node) if hasattr(n, "lineno")], key=lambda n: (n.lineno, n.col_offset))
+        reads = [n for n in nodes if prot_expr(n)]
+        for n in reads:
+            ra.inst(f"{f.qual}:{n.lineno} reads {norm(n)}")
+        for n in nodes:
+            if isinstance(n, ast.Assign) and len(n.targets) == 1 and isinstance(n.targets[0], ast.Name):
+                if prot_expr(n.value) or (isinstance(n.value, ast.Name) and n.value.id in aliases):
+                    aliases[n.targets[0].id] = n
+                else:
+                    aliases.pop(n.targets[0].id, None)
+            target = None
+            what = None
+            if isinstance(n, ast.Call) and isinstance(n.func, ast.Attribute) and n.func.attr in MUTATORS:
+                target, what = n.func.value, f".{n.func.attr}()"
+            elif isinstance(n, ast.AugAssign):
+                target, what = n.target, "augmented assignment"
+            elif isinstance(n, (ast.Assign, ast.Delete)):
+                for t in (n.targets if isinstance(n, (ast.Assign, ast.Delete)) else []):
+                    if isinstance(t, ast.Subscript):
+                        target, what = t.value, "item assignment/deletion"
+            if target is None:
+                continue
+            ra.ob()
+            is_alias = isinstance(target, ast.Name) and target.id in aliases
+            if (prot_expr(target) or is_alias) and f.qual not in definers:
+                src = aliases[target.id] if is_alias else target
+                ra.fail(f, src if is_alias else n,
+                        f"`{norm(target)}` is {'an alias of' if is_alias else ''} a shared algorithm/key table and is mutated by {what} "
+                        f"at line {n.lineno}: the set of reported digests then depends on earlier calls", A.p.loc(f, n))
+    rules.append(ra)
+
+    rb = Rule("C02", "C02.b", "caller-supplied algorithm names reach hashlib and the digest map only after "
+              "_clean_algorithm", floor=3)
+    algparams = {P("additional_algorithm"), P("checksum_algorithm"), P("algorithm")}
+    for e in ("store_object", "delete_if_invalid_object", "get_hex_digest"):
+        it = A.api(e, "th")
+        for ev in it.events:
+            if ev.kind == "HASHNEW":
+                rb.ob()
+                rb.inst(f"{ev.func.qual}:{ev.line} hashlib.new({showv(ev.paths[0])[:50]})")
+                for t in ev.paths[0]:
+                    if t in algparams or (tag(t) == "elem" and any(x in algparams for x in subterms(t) if False)):
+                        rb.fail(site_func(ev), site_text(ev), f"hashlib.new receives the caller's spelling `{show(t)}` without _clean_algorithm",
+                                site_loc(A, ev))
+        # digest-map look-ups / membership with a raw name
+        seen = set()
+        for ev in it.events:
+            for f, pol in ev.facts:
+                for a in F.atoms_of(f):
+                    if a in seen:
+                        continue
+                    seen.add(a)
+                    if a[0] == "cmp" and a[1] == "in" and any(t in algparams for t in a[2]) and \
+                            any(tag(t) in ("dictzip", "classlist", "iattr") or t == ("selfattr", "default_algo_list") for t in a[3]):
+                        rb.ob()
+                        rb.fail(Q(e), f"{show(next(iter(a[2])))} in <table>", "membership of an un-normalised algorithm name is tested against an "
+                                "algorithm table / digest map: another spelling of a supported name would miss", "")
+        for k, l, st, rv in it.exits:
+            for t in rv:
+                for x in subterms(t):
+                    if tag(x) == "item" and x[2] in algparams:
+                        rb.ob()
+                        rb.fail(Q(e), "digest map subscript", f"the digest map is subscripted with the caller's raw spelling {show(x[2])}")
+        # the list handed to the writer contains only cleaned names
+        for c in it.calls:
+            if c["callee"] == Q("_refine_algorithm_list"):
+                rb.ob()
+                rb.inst(f"{e}: _refine_algorithm_list({', '.join(showv(v)[:40] for v in c['args'][1:])})")
+                for v in c["args"][1:]:
+                    for t in v:
+                        if t in algparams:
+                            rb.fail(c["func"], c["node"], f"the raw algorithm argument {show(t)} is added to the list of digests to compute",
+                                    A.p.loc(c["func"], c["node"]))
+    rules.append(rb)
+
+    rc = Rule("C02", "C02.c", "the algorithm tables agree: yaml default list -> translation table -> hashlib names; the "
+              "five documented defaults; other_algo_list within hashlib's guaranteed set; _clean_algorithm checks both tables", floor=4)
+    sda = A.p.func(Q("_set_default_algorithms"))
+    trans = None
+    for n in ast.walk(sda.node):
+        if isinstance(n, ast.Dict) and n.keys and all(isinstance(k, ast.Constant) for k in n.keys):
+            trans = {k.value: v.value for k, v in zip(n.keys, n.values) if isinstance(v, ast.Constant)}
+    if not trans:
+        raise AnalysisError("_set_default_algorithms: translation table not found")
+    b = A.p.func(Q("_build_hashstore_yaml_string"))
+    ylist = None
+    for n in ast.walk(b.node):
+        if isinstance(n, ast.Dict):
+            for k, v in zip(n.keys, n.values):
+                if isinstance(k, ast.Constant) and k.value == "store_default_algo_list" and isinstance(v, ast.List):
+                    ylist = [e.value for e in v.elts]
+    if ylist is None:
+        raise AnalysisError("_build_hashstore_yaml_string: store_default_algo_list not found")
+    other = [e.value for e in A.p.class_attr_assigns(CLS)["other_algo_list"].elts]
+    rc.inst(f"yaml default list {ylist}")
+    rc.inst(f"translation table {trans}")
+    rc.inst(f"other_algo_list {other}")
+    rc.ob(4)
+    miss = [a for a in ylist if a not in trans]
+    if miss:
+        rc.fail(b, "store_default_algo_list", f"default algorithms {miss} written to hashstore.yaml cannot be translated by _set_default_algorithms", A.p.loc(b, b.node))
+    bad = [v for v in list(trans.values()) + other if v not in hashlib.algorithms_guaranteed]
+    if bad:
+        rc.fail(sda, "algorithm tables", f"{bad} are not hashlib-guaranteed algorithm names", A.p.loc(sda, sda.node))
+    if sorted(trans[a] for a in ylist if a in trans) != sorted(DOC_DEFAULTS):
+        rc.fail(b, "store_default_algo_list", f"the default digest set {sorted(trans.get(a, a) for a in ylist)} differs from the documented "
+                f"{DOC_DEFAULTS}", A.p.loc(b, b.node))
+    if set(other) & set(trans.values()):
+        rc.fail(CLS, "other_algo_list", "an algorithm is both default and additional")
+    ca = A.p.func(Q("_clean_algorithm"))
+    tested = {n.attr for n in ast.walk(ca.node) if isinstance(n, ast.Attribute) and n.attr in ("default_algo_list", "other_algo_list")}
+    rc.inst(f"_clean_algorithm validates against {sorted(tested)}")
+    if tested != {"default_algo_list", "other_algo_list"}:
+        rc.fail(ca, "support check", f"_clean_algorithm validates against {sorted(tested)} only", A.p.loc(ca, ca.node))
+    rules.append(rc)
+
+    rd = Rule("C02", "C02.d", "the digest map's keys are exactly the list _refine_algorithm_list returned for this "
+              "call's own arguments", floor=2)
+    it = A.api("store_object", "th")
+    wf = Q("_write_to_tmp_file_and_get_hex_digests")
+    for c in it.calls:
+        if c["callee"] == wf and c.get("ret"):
+            inner = [r for r in it.calls if r["callee"] == Q("_refine_algorithm_list") and r["ctx"][:len(c["ctx"]) + 1] == c["ctx"] + (wf,)]
+            rd.ob()
+            rd.inst(f"{'>'.join(x.split('.')[-1] for x in c['ctx'])}: digest map keys")
+            if len(inner) != 1:
+                rd.fail(wf, "_refine_algorithm_list", "the per-call algorithm list is not computed exactly once per store")
+                continue
+            am = inner[0].get("argmap", {})
+            wam = c.get("argmap", {})
+            if am.get("additional_algorithm") != wam.get("additional_algorithm") or am.get("checksum_algorithm") != wam.get("checksum_algorithm"):
+                rd.fail(inner[0]["func"], inner[0]["node"], "the algorithm list is refined from something other than this call's additional/checksum algorithm",
+                        A.p.loc(inner[0]["func"], inner[0]["node"]))
+            for t in c["ret"]:
+                if tag(t) == "tuple":
+                    for d in t[1][0]:
+                        if tag(d) == "dictzip" and d[1] != inner[0]["ret"]:
+                            rd.fail(wf, "dict(zip(...))", "digest map keys are not the list returned by _refine_algorithm_list for this call")
+    rules.append(rd)
+    return rules
+
+
+# =======================================================================================
+def check_C06(A: Analysis, tier):
+    rules = []
+    vf = A.p.func(Q("_verify_object_information"))
+    ra = Rule("C06", "C06.a", "every comparison of the caller's checksum with a digest normalises the checksum the "
+              "same way, and that way includes lower-casing (digests are lower-case hex)", floor=2)
+    cmps = []
+    for n in ast.walk(vf.node):
+        if isinstance(n, ast.Compare) and len(n.ops) == 1 and isinstance(n.ops[0], (ast.Eq, ast.NotEq)):
+            sides = [n.left, n.comparators[0]]
+            for i, sd in enumerate(sides):
+                rn, chain = root_name(sd)
+                if rn == "checksum":
+                    o = sides[1 - i]
+                    orn, _ = root_name(o)
+                    cmps.append((n, tuple(c for c in chain), orn))
+    for n, chain, orn in cmps:
+        ra.inst(f"_verify_object_information:{n.lineno} `{norm(n)}`")
+        ra.ob()
+    chains = {c for _, c, _ in cmps}
+    for n, chain, orn in cmps:
+        if "lower" not in chain and "casefold" not in chain:
+            sib = [x for x in cmps if x[0] is not n and ("lower" in x[1] or "casefold" in x[1])]
+            ra.fail(vf, n, "the caller's checksum is compared case-sensitively with a lower-case hex digest"
+                    + (f" (the sibling comparison at line {sib[0][0].lineno} lower-cases it)" if sib else "")
+                    + ": a correct upper-case checksum is judged invalid", A.p.loc(vf, n))
+    if len(chains) > 1 and not ra.findings:
+        n = cmps[0][0]
+        ra.fail(vf, n, f"sibling checksum comparisons normalise differently: {sorted(chains)}", A.p.loc(vf, n))
+    rules.append(ra)
+
+    rb = Rule("C06", "C06.b", "the verdict is taken before the temp file is published and before tagging; both "
+              "branches (new / already stored content) call the same verifier with the same arguments", floor=4)
+    mg = A.p.func(Q("_move_and_get_checksums"))
+    vcalls = [c for c in ast.walk(mg.node) if isinstance(c, ast.Call) and norm(c.func) == "self._verify_object_information"]
+    rb.inst(f"_move_and_get_checksums: {len(vcalls)} verifier call(s)")
+    rb.ob()
+    if len(vcalls) < 2:
+        rb.fail(mg, "self._verify_object_information(...)", "content that is already stored (or new content) is accepted without a verdict: "
+                f"only {len(vcalls)} of the two branches validate", A.p.loc(mg, mg.node))
+    elif len({norm(c) for c in vcalls}) != 1:
+        rb.fail(mg, vcalls[1], "the two branches pass different arguments to the verifier: the verdict depends on whether identical "
+                "content is already stored", A.p.loc(mg, vcalls[1]))
+    for m in ALL_MODES:
+        it = A.api("store_object", m)
+        for ev in it.events:
+            if ev.kind == "RENAME" and any(c.cls == "OBJ" for c in primary(ev.classes[1])):
+                rb.ob()
+                rb.inst(f"publish at {ev.func.qual}:{ev.line} [{'>'.join(x.split('.')[-1] for x in ev.ctx[:2])}]")
+                if ("call", Q("_verify_object_information")) not in ev.done:
+                    rb.fail(site_func(ev), site_text(ev), "the temp file is moved to its permanent address on a path that did not pass "
+                            "_verify_object_information: an object failing validation would be added", site_loc(A, ev))
+        for c in it.calls:
+            if c["callee"] == Q("tag_object"):
+                rb.ob()
+                rb.inst(f"store_object:{c['node'].lineno} tag_object after validation")
+                if ("call", Q("_store_and_validate_data")) not in c["state"].done:
+                    rb.fail(c["func"], c["node"], "tag_object is reachable before the object was stored and validated: an invalid verdict could bind the pid",
+                            A.p.loc(c["func"], c["node"]))
+    rules.append(rb)
+
+    rc = Rule("C06", "C06.c", "an invalid verdict for a pid removes the temp file before raising, and the "
+              "already-stored branch removes it in a finally", floor=2)
+    for n in ast.walk(vf.node):
+        if isinstance(n, ast.Raise) and isinstance(n.exc, ast.Call) and norm(n.exc.func) in ("NonMatchingObjSize", "NonMatchingChecksum"):
+            for i in enclosing(n, ast.If):
+                if norm(i.test) == "pid is not None" and in_body(n, i.body):
+                    rc.ob()
+                    rc.inst(f"_verify_object_information:{n.lineno} raise {norm(n.exc.func)} for a pid")
+                    before = [s for s in i.body if s.lineno < n.lineno]
+                    ok = any(isinstance(c, ast.Call) and norm(c.func) == "self._delete" and len(c.args) == 2 and norm(c.args[1]) == "tmp_file_name"
+                             for s in before for c in ast.walk(s))
+                    if not ok:
+                        rc.fail(vf, n, "the mismatch error is raised for a pid without first deleting the temp file", A.p.loc(vf, n))
+                    break
+    tries = [t for t in func_nodes(mg, ast.Try) if any(c in vcalls for s in t.body for c in ast.walk(s))]
+    rc.ob()
+    okf = any(t.finalbody and any(isinstance(c, ast.Call) and norm(c.func) == "self._delete" and norm(c.args[-1]) == "tmp_file_name"
+                                  for s in t.finalbody for c in ast.walk(s)) for t in tries)
+    rc.inst("_move_and_get_checksums: finally removes the temp file on the duplicate branch")
+    if not okf:
+        rc.fail(mg, "finally: self._delete('tmp', tmp_file_name)", "on the already-stored branch the redundant temp file is not removed on every path",
+                A.p.loc(mg, mg.node))
+    rules.append(rc)
+
+    rd = Rule("C06", "C06.d", "delete_if_invalid_object deletes (reference-guarded) exactly on the two invalid verdicts, "
+              "re-raises the same class, and never deletes on a valid verdict", floor=2)
+    for m in ALL_MODES:
+        it = A.api("delete_if_invalid_object", m)
+        for (fn, h, lab, ctx, o) in it.handler_runs:
+            if fn.qual == Q("delete_if_invalid_object") and lab in ("NonMatchingObjSize", "NonMatchingChecksum"):
+                rd.ob()
+                rd.inst(f"delete_if_invalid_object [{m}] except {lab}")
+                if lab not in o.raises or o.normal is not None or o.ret is not None:
+                    rd.fail(fn, f"except {lab}", f"the {lab} verdict leaves as {sorted(map(str, o.raises)) or 'normal completion'}", A.p.loc(fn, h))
+        labs = {c["state"].handling[-1] if c["state"].handling else None for c in it.calls if c["callee"] == Q("_delete_object_only")}
+        rd.ob()
+        if None in labs:
+            rd.fail(Q("delete_if_invalid_object"), "self._delete_object_only(...)", "_delete_object_only is reachable on the valid-verdict path: a valid object would be deleted")
+        for lab in ("NonMatchingObjSize", "NonMatchingChecksum"):
+            if lab not in labs:
+                rd.fail(Q("delete_if_invalid_object"), f"except {lab}", f"the invalid verdict {lab} does not delete the (unreferenced) object")
+        for c in it.calls:
+            if c["callee"] == Q("_delete_object_only"):
+                v = c["args"][-1] if c["args"] else EMPTY
+                if not all(tag(t) == "iattr" and t[2] == "cid" for t in v):
+                    rd.fail(c["func"], c["node"], "delete_if_invalid_object deletes something other than object_metadata.cid", A.p.loc(c["func"], c["node"]))
+    rules.append(rd)
+
+    re_ = Rule("C06", "C06.e", "a checksum without its algorithm, or the reverse, is rejected", floor=2)
+    for label, ov in (("checksum without algorithm", {"checksum": V(C("abc")), "checksum_algorithm": V(NONE), "additional_algorithm": V(NONE)}),
+                      ("algorithm without checksum", {"checksum": V(NONE), "checksum_algorithm": V(C("sha256")), "additional_algorithm": V(NONE)})):
+        it = A.run(Q("_check_arg_algorithms_and_checksum"), "th", overrides=ov, tagk=label)
+        re_.ob()
+        re_.inst(f"_check_arg_algorithms_and_checksum with {label}: exits {[k + ':' + str(l) for k, l, s, r in it.exits]}")
+        if any(k == "return" for k, l, s, r in it.exits):
+            f = A.p.func(Q("_check_arg_algorithms_and_checksum"))
+            re_.fail(f, label, f"{label} is accepted: validation is silently skipped or half-applied", A.p.loc(f, f.node))
+    rules.append(re_)
+    return rules
+
+
+# =======================================================================================
+SWALLOWERS = {
+    (Q("_exists"), "FileNotFoundError"): "existence probe: absence is its answer (the property exempts probes)",
+    (Q("_delete"), "FileNotFoundError"): "absent metadata document: documented silent no-op",
+    (Q("_create_path"), "FileExistsError"): "idempotent mkdir; asserts the directory exists",
+    ("Stream.__init__", "(FileNotFoundError, PermissionError, OSError)"): "block-size probe; falls back to 8192",
+    ("Stream.__init__", "(FileNotFoundError, PermissionError, OSError, AttributeError)"): "block-size probe; falls back to 8192",
+    ("Stream.__init__", "(AttributeError, FileNotFoundError, PermissionError, OSError)"): "block-size probe; falls back to 8192",
+    (Q("_write_to_tmp_file_and_get_hex_digests"), "Exception"): "clean-up inside finally, runs while another exception propagates",
+    (Q("_delete_marked_files"), "Exception"): "marker of a file already renamed away; the logical effect is complete",
+    (Q("_mark_pid_refs_file_for_deletion"), "Exception"): "roll-back helper (C13.b): the original error is re-raised by the caller",
+    (Q("_remove_pid_and_handle_cid_refs_deletion"), "Exception"): "roll-back helper (C13.b): the original error is re-raised by the caller",
+}
+
+
+def os_capable(h):
+    if h.type is None:
+        return True
+    names = [norm(e) for e in (h.type.elts if isinstance(h.type, ast.Tuple) else [h.type])]
+    for n_ in names:
+        n_ = {"IOError": "OSError", "EnvironmentError": "OSError"}.get(n_, n_)
+        t = getattr(builtins, n_, None)
+        if isinstance(t, type) and (issubclass(t, OSError) or issubclass(OSError, t)):
+            return True
+    return False
+
+
+def check_C13(A: Analysis, tier):
+    rules = []
+    ra = Rule("C13", "C13.a", "every handler that can catch an OSError ends in raise on every path, except the tabled "
+              "swallowers (one reason each)", floor=18)
+    for f in [fn for fn in A.p.funcs.values() if fn.module.name == "filehashstore"]:
+        for t in func_nodes(f, ast.Try):
+            for h in t.handlers:
+                if not os_capable(h):
+                    continue
+                ty = "bare" if h.type is None else norm(h.type)
+                ra.ob()
+                ra.inst(f"{f.qual}:{h.lineno} except {ty}")
+                if ends_in_raise(h.body):
+                    continue
+                key = (f.qual, ty)
+                if key in SWALLOWERS:
+                    # the finally-clean-up entry applies only to a handler nested in a finally
+                    if f.qual == Q("_write_to_tmp_file_and_get_hex_digests"):
+                        in_fin = any(in_body(h, tt.finalbody) for tt in func_nodes(f, ast.Try) if tt.finalbody)
+                        if not in_fin:
+                            ra.fail(f, f"except {ty}", "I/O error swallowed while writing the temp file: store_object would report success "
+                                    "for content that was not written", A.p.loc(f, h))
+                    continue
+                ra.fail(f, f"except {ty}", "this handler can catch a file-system error and complete normally: the failure is swallowed and "
+                        "the call reports success without its effect", A.p.loc(f, h))
+    rules.append(ra)
+
+    rb = Rule("C13", "C13.b", "the two error-swallowing roll-back helpers are called only from _untag_object, which is "
+              "called only from the generic handler of _store_hashstore_refs_files", floor=3)
+    callers = {}
+    for f in A.p.funcs.values():
+        for c in ast.walk(f.node):
+            if isinstance(c, ast.Call) and isinstance(c.func, ast.Attribute) and isinstance(c.func.value, ast.Name) and c.func.value.id in ("self", CLS):
+                callers.setdefault(c.func.attr, []).append((f, c))
+    for name, allowed in (("_mark_pid_refs_file_for_deletion", {Q("_untag_object")}),
+                          ("_remove_pid_and_handle_cid_refs_deletion", {Q("_untag_object")}),
+                          ("_untag_object", {Q("_store_hashstore_refs_files")})):
+        for f, c in callers.get(name, []):
+            rb.ob()
+            rb.inst(f"{f.qual}:{c.lineno} calls {name}")
+            if f.qual not in allowed:
+                rb.fail(f, c, f"{name} swallows I/O errors by design and may only run inside the tagging roll-back, not from {f.qual}",
+                        A.p.loc(f, c))
+            if name == "_untag_object":
+                hs = [h for h in enclosing(c, ast.ExceptHandler)]
+                if not hs or not ends_in_raise(hs[0].body):
+                    rb.fail(f, c, "the roll-back is not inside a handler that re-raises the original error", A.p.loc(f, c))
+    rules.append(rb)
+
+    rc = Rule("C13", "C13.c", "on a failing path: tagging is rolled back before the error is re-raised; a failed "
+              "publishing move removes the temp file and raises; the temp writer removes its file on every exceptional exit", floor=4)
+    for m in ALL_MODES:
+        it = A.api("tag_object", m)
+        for (fn, h, lab, ctx, o) in it.handler_runs:
+            owner = [t for t in func_nodes(fn, ast.Try) if any(h is x for x in t.handlers)]
+            generic = owner and any(hh.type is not None and "HashStoreRefsAlreadyExists" in norm(hh.type) for hh in owner[0].handlers)
+            if fn.qual == Q("_store_hashstore_refs_files") and lab == "*" and h.type is not None and norm(h.type) == "Exception" and generic:
+                rc.ob()
+                rc.inst(f"_store_hashstore_refs_files [{m}] generic handler")
+                if o.normal is not None or o.ret is not None:
+                    rc.fail(fn, "except Exception", "an unexpected tagging error can complete normally after roll-back: success is reported for a pid that was un-tagged",
+                            A.p.loc(fn, h))
+                # the roll-back call precedes the re-raise in the handler and is given this call's pid and cid
+                pos = {norm(s_): i for i, s_ in enumerate(h.body)}
+                ut = [i for i, s_ in enumerate(h.body) if any(isinstance(c, ast.Call) and norm(c.func) == "self._untag_object"
+                                                             and [norm(a) for a in c.args] == ["pid", "cid"] for c in ast.walk(s_))]
+                rz = [i for i, s_ in enumerate(h.body) if isinstance(s_, ast.Raise)]
+                called = any(c["callee"] == Q("_untag_object") and "*" in c["state"].handling for c in it.calls)
+                if not ut or not rz or min(ut) > min(rz) or not called:
+                    rc.fail(fn, "except Exception", "an unexpected tagging error is re-raised without rolling the half-written references back: "
+                            "the pid stays half-bound", A.p.loc(fn, h))
+        for e, fq, ent in (("store_object", Q("_move_and_get_checksums"), "objects"), ("store_metadata", Q("_put_metadata"), "metadata")):
+            it = A.api(e, m)
+            for (fn, h, lab, ctx, o) in it.handler_runs:
+                if fn.qual == fq and lab == "*" and os_capable(h) and any(isinstance(c, ast.Call) and norm(c.func) == "shutil.move"
+                                                                           for t in enclosing(h, ast.Try) for s in t.body for c in ast.walk(s)):
+                    rc.ob()
+                    rc.inst(f"{fq} [{m}] failed-move handler")
+                    if o.normal is not None or o.ret is not None:
+                        rc.fail(fn, "except around shutil.move", "a failed move into place can complete normally: success reported without the file",
+                                A.p.loc(fn, h))
+                    rem = [ev for ev in it.events if ev.kind == "REMOVE" and ev.handling and ev.handling[-1] == "*" and fq in ev.ctx
+                           and any(c.cls == "TMP" and c.key == C(ent) for c in primary(ev.classes[0]))]
+                    if not rem:
+                        rc.fail(fn, "except around shutil.move", "a failed move into place does not remove the temp file", A.p.loc(fn, h))
+    it = A.run(Q("_write_to_tmp_file_and_get_hex_digests"), "th")
+    for k, l, st, rv in it.exits:
+        rc.ob()
+        rc.inst(f"_write_to_tmp_file_and_get_hex_digests exit {k} {l or ''}")
+        if k == "raise" and st.tmps:
+            f = A.p.func(Q("_write_to_tmp_file_and_get_hex_digests"))
+            rc.fail(f, "finally: remove temp file", f"the temp file can survive an exceptional exit ({l}) of the temp writer", A.p.loc(f, f.node))
+    rules.append(rc)
+
+    re_ = Rule("C13", "C13.e", "no call completes normally out of a handler that caught a library (I/O) error, "
+               "except through a tabled swallower", floor=8)
+    for m in ("th",):
+        for e in ("store_object", "tag_object", "delete_object", "store_metadata", "delete_metadata"):
+            it = A.api(e, m)
+            for (fn, h, lab, ctx, o) in it.handler_runs:
+                if lab != "*" and not (isinstance(getattr(builtins, str(lab), None), type) and issubclass(getattr(builtins, str(lab)), OSError)):
+                    continue
+                ty = "bare" if h.type is None else norm(h.type)
+                re_.ob()
+                re_.inst(f"{fn.qual}:{h.lineno} except {ty} <- {lab}")
+                if (o.normal is not None or o.ret is not None) and (fn.qual, ty) not in SWALLOWERS:
+                    re_.fail(fn, f"except {ty}", f"a {lab} error caught here lets {e} continue to a normal return", A.p.loc(fn, h))
+    rules.append(re_)
+    return rules
+
+
+# =======================================================================================
+def check_C14(A: Analysis, tier):
+    rules = []
+    vp = A.p.func(Q("_verify_hashstore_properties"))
+    req = [e.value for e in A.p.class_attr_assigns(CLS)["property_required_keys"].elts]
+    ra = Rule("C14", "C14.a", "every pinned key (all required keys but store_path) is compared with the stored value, "
+              "depth and width as integers, and a mismatch raises", floor=3)
+    loops = [l for l in func_nodes(vp, ast.For) if norm(l.iter).endswith("property_required_keys")]
+    ra.inst(f"_verify_hashstore_properties: loop over {norm(loops[0].iter) if loops else '?'}")
+    ra.ob(4)
+    if not loops:
+        ra.fail(vp, "for key in self.property_required_keys", "the stored configuration is no longer compared key by key", A.p.loc(vp, vp.node))
+    else:
+        lp = loops[0]
+        kv = lp.target.id
+        excl = set()
+        for n in ast.walk(lp):
+            if isinstance(n, ast.Compare) and isinstance(n.left, ast.Name) and n.left.id == kv and isinstance(n.ops[0], ast.NotEq) \
+                    and isinstance(n.comparators[0], ast.Constant):
+                for i in enclosing(n, ast.If):
+                    if i.test is n or any(n is x for x in ast.walk(i.test)):
+                        # an `if key != "x":` guarding the comparison excludes x
+                        if any(isinstance(r, ast.Raise) for r in ast.walk(i)):
+                            excl.add(n.comparators[0].value)
+                        break
+        ra.inst(f"excluded keys {sorted(excl)}")
+        if excl != {"store_path"}:
+            ra.fail(vp, lp, f"keys excluded from the comparison are {sorted(excl)}; only store_path may be", A.p.loc(vp, lp))
+        cmpn = [n for n in ast.walk(lp) if isinstance(n, ast.Compare) and any(norm(x).startswith("hashstore_yaml_dict[") for x in [n.left] + n.comparators)]
+        ok = False
+        for n in cmpn:
+            for i in enclosing(n, ast.If):
+                if any(n is x for x in ast.walk(i.test)) and isinstance(n.ops[0], ast.NotEq) and ends_in_raise(i.body):
+                    ok = True
+        ra.inst(f"comparison `{norm(cmpn[0]) if cmpn else '?'}`")
+        if not ok:
+            ra.fail(vp, cmpn[0] if cmpn else lp, "a mismatch between supplied and stored configuration does not raise", A.p.loc(vp, lp))
+        ints = [c for c in ast.walk(lp) if isinstance(c, ast.Call) and norm(c.func) == "int"]
+        intok = False
+        for c in ints:
+            for i in enclosing(c, ast.If):
+                t = norm(i.test)
+                if "store_depth" in t and "store_width" in t and in_body(c, i.body):
+                    intok = True
+        if not intok:
+            ra.fail(vp, "int(properties[key])", "depth and width are not compared as integers (an integer-like string would be refused or a "
+                    "mismatch missed)", A.p.loc(vp, lp))
+    rules.append(ra)
+
+    rb = Rule("C14", "C14.b", "in the constructor every file-system change is preceded on all paths by property "
+              "validation and the comparison with the stored configuration; the configuration is written only for an "
+              "accepted store algorithm", floor=3)
+    it = A.run(Q("__init__"), "th")
+    for ev in it.events:
+        if ev.kind in MUT or ev.kind == "MKDIR":
+            rb.ob()
+            rb.inst(f"{ev.func.qual}:{ev.line} {ev.kind} {ev.prim}")
+            for need in (Q("_validate_properties"), Q("_verify_hashstore_properties")):
+                if ("call", need) not in ev.done:
+                    rb.fail(site_func(ev), site_text(ev), f"the constructor changes the file system before {need.split('.')[-1]} has accepted the "
+                            "properties: a refused open would leave files/directories behind", site_loc(A, ev))
+            if Q("_write_properties") in ev.ctx:
+                okalg = any(f[0] == "cmp" and f[1] == "in" and pol is True for f, pol in ev.facts)
+                if not okalg:
+                    rb.fail(site_func(ev), site_text(ev), "the store root / configuration file is created before the store algorithm was "
+                            "checked against the accepted list", site_loc(A, ev))
+    rules.append(rb)
+
+    rc = Rule("C14", "C14.c", "hashstore.yaml is created only by _write_properties, only when tested absent there and "
+              "at its call site", floor=1)
+    seen = False
+    for e in [Q("__init__")] + [Q(a) for a in PUBLIC_API]:
+        it = A.run(e, "th")
+        for ev in it.events:
+            if ev.kind in ("CREATE", "WRITE", "RENAME", "REMOVE"):
+                for i, c in resource_hits(ev, {"CONFIG"}):
+                    if ev.prim.startswith("file."):
+                        continue
+                    rc.ob()
+                    rc.inst(f"{ev.func.qual}:{ev.line} {ev.kind} on hashstore.yaml")
+                    seen = True
+                    if ev.func.qual != Q("_write_properties") or ev.kind != "CREATE":
+                        rc.fail(site_func(ev), site_text(ev), f"hashstore.yaml is modified ({ev.kind}) outside its one-time creation", site_loc(A, ev))
+                        continue
+                    atoms = probe_atoms(ev.facts, "isfile", "CONFIG")
+                    if not atoms or not all(F.implied(ev.facts, a) is False for a in atoms):
+                        rc.fail(site_func(ev), site_text(ev), "hashstore.yaml is opened for writing on a path where it was not tested absent: "
+                                "an existing configuration could be overwritten", site_loc(A, ev))
+    if not seen:
+        rc.fail(Q("_write_properties"), "open(hashstore.yaml, 'w')", "the configuration file is never written: a new store would not pin its configuration")
+    rules.append(rc)
+
+    rd = Rule("C14", "C14.d", "without a configuration file the constructor refuses when any of the entity "
+              "directories it would create already exists", floor=2)
+    subs = None
+    for n in ast.walk(vp.node):
+        if isinstance(n, ast.List) and n.elts and all(isinstance(e, ast.Constant) and isinstance(e.value, str) for e in n.elts):
+            subs = [e.value for e in n.elts]
+    created = set()
+    for ev in it_events(A.run(Q("__init__"), "th")):
+        if ev.kind == "MKDIR":
+            for c in ev.classes[0]:
+                if c.cls == "TMPDIR":
+                    created.add(c.key[1].split("/")[0])
+                if c.cls == "ENTITYDIR":
+                    created.add(c.key[1].split("/")[0])
+    rd.inst(f"probed without config: {subs}")
+    rd.inst(f"created by the constructor: {sorted(created)}")
+    rd.ob(2)
+    if subs is None or set(subs) != created:
+        rd.fail(vp, "subfolders", f"directories probed for an existing store ({subs}) differ from those the constructor creates ({sorted(created)}): "
+                "a directory holding store data but no configuration could be re-initialised with other settings", A.p.loc(vp, vp.node))
+    nocfg = [i for i in func_nodes(vp, ast.If) if "isfile" in norm(i.test) and i.orelse]
+    if not nocfg or not any(isinstance(r, ast.Raise) for s in nocfg[0].orelse for r in ast.walk(s)):
+        rd.fail(vp, "else: ... raise", "existing store data without a configuration file is not refused", A.p.loc(vp, vp.node))
+    rules.append(rd)
+
+    re_ = Rule("C14", "C14.e", "accepted store algorithms = keys of the translation table = default list written to yaml", floor=3)
+    wp = A.p.func(Q("_write_properties"))
+    acc = None
+    for n in func_nodes(wp, ast.Assign):
+        if norm(n.targets[0]) == "accepted_store_algorithms" and isinstance(n.value, ast.List):
+            acc = [e.value for e in n.value.elts]
+    sda = A.p.func(Q("_set_default_algorithms"))
+    trans = None
+    for n in ast.walk(sda.node):
+        if isinstance(n, ast.Dict) and n.keys and all(isinstance(k, ast.Constant) for k in n.keys):
+            trans = [k.value for k in n.keys]
+    ylist = None
+    for n in ast.walk(A.p.func(Q("_build_hashstore_yaml_string")).node):
+        if isinstance(n, ast.Dict):
+            for k, v in zip(n.keys, n.values):
+                if isinstance(k, ast.Constant) and k.value == "store_default_algo_list" and isinstance(v, ast.List):
+                    ylist = [e.value for e in v.elts]
+    re_.inst(f"accepted {acc}")
+    re_.inst(f"translation keys {trans}")
+    re_.inst(f"yaml default list {ylist}")
+    re_.ob(2)
+    if acc is None or trans is None or ylist is None:
+        raise AnalysisError("algorithm tables of C14.e not found")
+    if set(acc) - set(trans):
+        re_.fail(wp, "accepted_store_algorithms", f"store algorithms {sorted(set(acc) - set(trans))} are accepted at creation but cannot be translated "
+                 "when the store is opened", A.p.loc(wp, wp.node))
+    if set(acc) != set(ylist):
+        re_.fail(wp, "accepted_store_algorithms", f"accepted store algorithms {acc} differ from the default list {ylist}", A.p.loc(wp, wp.node))
+    # membership test guards the write
+    tests = [n for n in ast.walk(wp.node) if isinstance(n, ast.Compare) and isinstance(n.ops[0], (ast.In, ast.NotIn)) and norm(n.comparators[0]) == "accepted_store_algorithms"]
+    if not tests:
+        re_.fail(wp, "store_algorithm in accepted_store_algorithms", "the store algorithm is no longer checked against the accepted list", A.p.loc(wp, wp.node))
+    rules.append(re_)
+    return rules
+
+
+def it_events(it):
+    return it.events
+
+
+# =======================================================================================
+CHECKERS = {Q("_check_string"), Q("_check_arg_data"), Q("_check_integer"), Q("_check_arg_algorithms_and_checksum"),
+            Q("_check_arg_format_id"), Q("_clean_algorithm")}
+# store_object(pid=None, data): documented data-only mode; the other arguments are ignored there
+DATA_ONLY_REQUIRED = {"data"}
+
+
+def check_C17(A: Analysis, tier):
+    rules = []
+    ra = Rule("C17", "C17.a", "at every state-changing primitive of a public call, every parameter the call validates "
+              "has already passed its checker on this path (validate before mutate)", floor=8)
+    rb = Rule("C17", "C17.b", "every parameter of every public method is handed to a checker by the method itself", floor=20)
+    for m in ALL_MODES:
+        for e in PUBLIC_API:
+            it = A.api(e, m)
+            f = A.p.func(Q(e))
+            params = [a.arg for a in f.node.args.args if a.arg != "self"]
+            checked = {}
+            for c in it.calls:
+                if c["callee"] in CHECKERS and c["ctx"] == (Q(e),):
+                    for pn, v in c.get("argmap", {}).items():
+                        for t in v:
+                            if tag(t) == "param":
+                                checked.setdefault(t[1], set()).add(c["callee"])
+            for p_ in params:
+                rb.ob()
+                if p_ == "object_metadata":
+                    ok = any(isinstance(c, ast.Call) and norm(c.func) == "isinstance" and norm(c.args[0]) == p_ for c in ast.walk(f.node))
+                    rb.inst(f"{e}({p_}): isinstance test")
+                else:
+                    ok = p_ in checked
+                    rb.inst(f"{e}({p_}): {sorted(x.split('.')[-1] for x in checked.get(p_, []))}")
+                if not ok and m == "th":
+                    rb.fail(f, p_, f"parameter `{p_}` of {e} is not validated by the method: an invalid value is used instead of rejected", A.p.loc(f, f.node))
+            for ev in it.events:
+                if ev.kind not in MUT and ev.kind != "MKDIR":
+                    continue
+                ra.ob()
+                ra.inst(f"{e}: {ev.func.qual}:{ev.line} {ev.kind}")
+                need = set(checked)
+                if e == "store_object" and F.implied(ev.facts, ("isnone", V(P("pid")))) is True:
+                    need = need & DATA_ONLY_REQUIRED
+                for p_ in sorted(need):
+                    if not any(d[0] == "argof" and d[1] in CHECKERS and d[3] == P(p_) for d in ev.done if len(d) == 4):
+                        ra.fail(site_func(ev), site_text(ev), f"{e} can change the store before `{p_}` has been validated: a call rejected for "
+                                f"`{p_}` would already have modified files", site_loc(A, ev), {"entry": e, "param": p_})
+                if e == "delete_if_invalid_object":
+                    if not any(f_[0] == "isinstance" and pol is True for f_, pol in ev.facts):
+                        ra.fail(site_func(ev), site_text(ev), "delete_if_invalid_object can delete before object_metadata's type was checked", site_loc(A, ev))
+    rules += [ra, rb]
+
+    rc = Rule("C17", "C17.c", "the checkers test what is documented: _check_string None/blank/whitespace; "
+              "_check_integer type and < 1; _check_arg_data the three accepted types and the empty string", floor=3)
+    cs = A.p.func(Q("_check_string"))
+    t = " ".join(norm(i.test) for i in func_nodes(cs, ast.If))
+    rc.inst(f"_check_string: {t[:90]}")
+    rc.ob(3)
+    for want, txt in (("is None", "None"), ("strip() == ''", "empty / blank"), ("isspace()", "embedded whitespace")):
+        if want not in t:
+            rc.fail(cs, f"check for {txt}", f"_check_string no longer rejects {txt} identifiers", A.p.loc(cs, cs.node))
+    if not any(isinstance(r, ast.Raise) and norm(r.exc.func) == "ValueError" for r in ast.walk(cs.node) if isinstance(r, ast.Raise) and isinstance(r.exc, ast.Call)):
+        rc.fail(cs, "raise ValueError", "_check_string no longer raises ValueError", A.p.loc(cs, cs.node))
+    ci = A.p.func(Q("_check_integer"))
+    t = " ".join(norm(i.test) for i in func_nodes(ci, ast.If))
+    rc.inst(f"_check_integer: {t[:90]}")
+    rc.ob(2)
+    if "isinstance(file_size, int)" not in t.replace(ci.node.args.args[0].arg, "file_size"):
+        rc.fail(ci, "isinstance(size, int)", "_check_integer no longer rejects non-integers", A.p.loc(ci, ci.node))
+    if not any(x in t for x in ("< 1", "<= 0")):
+        rc.fail(ci, "size < 1", "_check_integer no longer rejects non-positive sizes", A.p.loc(ci, ci.node))
+    cd = A.p.func(Q("_check_arg_data"))
+    types = sorted({norm(c.args[1]) for c in ast.walk(cd.node) if isinstance(c, ast.Call) and norm(c.func) == "isinstance" and len(c.args) == 2})
+    rc.inst(f"_check_arg_data admits {types}")
+    rc.ob(2)
+    if types != ["Path", "io.BufferedIOBase", "str"]:
+        rc.fail(cd, "isinstance tests", f"_check_arg_data admits {types}; documented: str, Path, buffered stream", A.p.loc(cd, cd.node))
+    if not any(isinstance(r, ast.Raise) for r in ast.walk(cd.node)):
+        rc.fail(cd, "raise TypeError", "_check_arg_data no longer raises", A.p.loc(cd, cd.node))
+    rules.append(rc)
+
+    rd = Rule("C17", "C17.d", "retrieve_object, retrieve_metadata and get_hex_digest reach no state-changing primitive; "
+              "every open they reach is a read", floor=3)
+    for m in ALL_MODES:
+        for e in ("retrieve_object", "retrieve_metadata", "get_hex_digest"):
+            it = A.api(e, m)
+            rd.inst(f"{e} [{m}]: {len(it.events)} primitive events, kinds {sorted({ev.kind for ev in it.events})}")
+            for ev in it.events:
+                rd.ob()
+                if ev.kind in MUT or ev.kind in ("MKDIR", "CHMOD", "FLOCK"):
+                    rd.fail(site_func(ev), site_text(ev), f"read-only call {e} reaches {ev.kind} ({ev.prim})", site_loc(A, ev), {"entry": e})
+            for l in it.lock_events:
+                rd.ob()
+    rules.append(rd)
+
+    re_ = Rule("C17", "C17.e", "delete_object on an unknown pid raises PidRefsDoesNotExist before any file-system change", floor=1)
+    for m in ALL_MODES:
+        it = A.api("delete_object", m)
+        got = False
+        for k, l, st, rv in it.exits:
+            if k == "raise" and l == "PidRefsDoesNotExist":
+                got = True
+                re_.ob()
+                re_.inst(f"delete_object [{m}] exit PidRefsDoesNotExist, mutations before: {len(st.muts)}")
+                if st.muts:
+                    re_.fail(Q("delete_object"), "PidRefsDoesNotExist", "delete_object of an unknown pid changes files before reporting the pid as unknown")
+        if not got:
+            re_.fail(Q("delete_object"), "PidRefsDoesNotExist", "delete_object no longer reports an unknown pid with PidRefsDoesNotExist")
+    rules.append(re_)
+    return rules
+
+
+# =======================================================================================
+OPTION_BINDING = {
+    # dest -> API parameter names it may bind to (README "HashStore Client")
+    "object_pid": {"pid"},
+    "object_path": {"data", "metadata"},
+    "object_algorithm": {"additional_algorithm", "algorithm"},
+    "object_checksum": {"checksum"},
+    "object_checksum_algorithm": {"checksum_algorithm"},
+    "object_size": {"expected_object_size"},
+    "object_formatid": {"format_id"},
+}
+VERBS = {
+    "client_getchecksum": ("get_hex_digest", {"object_pid", "object_algorithm"}),
+    "client_storeobject": ("store_object", {"object_pid", "object_path"}),
+    "client_storemetadata": ("store_metadata", {"object_pid", "object_path"}),
+    "client_retrieveobject": ("retrieve_object", {"object_pid"}),
+    "client_retrievemetadata": ("retrieve_metadata", {"object_pid"}),
+    "client_deleteobject": ("delete_object", {"object_pid"}),
+    "client_deletemetadata": ("delete_metadata", {"object_pid"}),
+}
+# API parameters for which None has a meaning of its own that a front end must not replace
+NONE_SENSITIVE = {("delete_metadata", "format_id"): "None means: all documents of the pid"}
+
+
+def check_C20(A: Analysis, tier):
+    rules = []
+    main = A.p.func("main")
+    it = A.run("main", "th", inline_api=False)
+    api = [c for c in it.calls if c.get("api")]
+    # argparse model
+    pinit = A.p.func("HashStoreParser.__init__")
+    opts = {}
+    for c in ast.walk(pinit.node):
+        if isinstance(c, ast.Call) and isinstance(c.func, ast.Attribute) and c.func.attr == "add_argument":
+            kw = {k.arg: k.value for k in c.keywords}
+            dest = kw["dest"].value if "dest" in kw and isinstance(kw["dest"], ast.Constant) else (c.args[0].value.lstrip("-") if c.args else None)
+            opts[dest] = {"type": norm(kw["type"]) if "type" in kw else None, "action": kw["action"].value if "action" in kw else None}
+
+    def binding(c):
+        f = A.p.func(c["callee"])
+        names = [a.arg for a in f.node.args.args if a.arg != "self"]
+        out = {}
+        for i, v in enumerate(c["args"]):
+            if i < len(names):
+                out[names[i]] = v
+        for k, v in c["kw"].items():
+            out[k] = v
+        return f, out
+
+    ra = Rule("C20", "C20.a", "every option value reaches the API with the type its parameter requires (argparse "
+              "options without type= are strings)", floor=7)
+    rb = Rule("C20", "C20.b", "each option binds to the API parameter it is documented for", floor=7)
+    rd = Rule("C20", "C20.d", "where the API gives None a meaning of its own the client passes the raw option, not a "
+              "substituted default", floor=1)
+    for c in api:
+        f, b = binding(c)
+        meth = c["callee"].split(".")[-1]
+        ann = {a.arg: (norm(a.annotation) if a.annotation is not None else "") for a in f.node.args.args}
+        for pn, v in b.items():
+            ra.ob()
+            rb.ob()
+            ra.inst(f"{meth}({pn}=) <- {showv(v)[:60]}")
+            rb.inst(f"{meth}({pn}=) <- {showv(v)[:60]}")
+            for t in v:
+                dests = [x[1] for x in subterms(t) if tag(x) == "opt"]
+                for d in dests:
+                    if d in OPTION_BINDING and pn not in OPTION_BINDING[d]:
+                        rb.fail(main, c["node"], f"option dest `{d}` is passed as `{pn}` of {meth}; documented for {sorted(OPTION_BINDING[d])}",
+                                A.p.loc(main, c["node"]))
+                wants_int = "int" in ann.get(pn, "")
+                if wants_int:
+                    if tag(t) == "opt" and (opts.get(t[1], {}).get("type") != "int"):
+                        rd_ = f"`-{t[1]}` is parsed as a string and passed unchanged as `{pn}: {ann[pn]}` of {meth}: the API rejects every value"
+                        ra.fail(main, f"{meth}({pn}=args.{t[1]})", rd_, A.p.loc(main, c["node"]))
+                elif tag(t) == "int":
+                    ra.fail(main, f"{meth}({pn}=int(...))", f"`{pn}` of {meth} is a string parameter but receives an int()", A.p.loc(main, c["node"]))
+            if (meth, pn) in NONE_SENSITIVE:
+                rd.ob()
+                rd.inst(f"{meth}({pn}=) <- {showv(v)[:80]}")
+                if any(tag(t) != "opt" and t != NONE for t in v):
+                    rd.fail(main, f"{meth}({pn}=...)", f"the client substitutes a default for a missing `{pn}` before calling {meth} "
+                            f"({NONE_SENSITIVE[(meth, pn)]}): `-{meth.replace('_', '')}` without the option behaves differently from the API call",
+                            A.p.loc(main, c["node"]))
+    rules += [ra, rb]
+
+    rc = Rule("C20", "C20.c", "each documented verb flag dispatches to its API method and demands its required options", floor=7)
+    for flag, (meth, required) in VERBS.items():
+        rc.ob()
+        hit = [c for c in api if any(f == ("truthy", V(("opt", flag))) and pol is True for f, pol in c["state"].facts)]
+        rc.inst(f"-{flag[7:]} -> {[c['callee'].split('.')[-1] for c in hit]}")
+        if len(hit) != 1 or hit[0]["callee"] != Q(meth):
+            rc.fail(main, f"getattr(args, '{flag}')", f"verb flag {flag} dispatches to {[c['callee'] for c in hit] or 'nothing'}, documented: {meth}",
+                    A.p.loc(main, main.node))
+            continue
+        for d in sorted(required):
+            if F.implied(hit[0]["state"].facts, ("isnone", V(("opt", d)))) is not False:
+                rc.fail(main, f"{meth}: required option {d}", f"{meth} is called although the required option `{d}` may be missing", A.p.loc(main, hit[0]["node"]))
+    rules.append(rc)
+    rules.append(rd)
+
+    re_ = Rule("C20", "C20.e", "the client opens the store with exactly the API's required keys; depth and width are "
+               "integers on both client paths", floor=2)
+    req = [e.value for e in A.p.class_attr_assigns(CLS)["property_required_keys"].elts]
+    lsp = A.p.func("HashStoreParser.load_store_properties")
+    keys = []
+    for n in ast.walk(lsp.node):
+        if isinstance(n, ast.List) and n.elts and all(isinstance(e, ast.Constant) for e in n.elts):
+            keys = [e.value for e in n.elts]
+    re_.inst(f"load_store_properties keys {keys}")
+    re_.ob()
+    if sorted(keys + ["store_path"]) != sorted(req):
+        re_.fail(lsp, "property_required_keys", f"client loads {keys} (+store_path); the API requires {req}", A.p.loc(lsp, lsp.node))
+    if not any(isinstance(c, ast.Call) and norm(c.func) == "int" for c in ast.walk(lsp.node)):
+        re_.fail(lsp, "int(yaml_data[key])", "depth/width read from hashstore.yaml are not converted to int", A.p.loc(lsp, lsp.node))
+    for d in [n for n in ast.walk(main.node) if isinstance(n, ast.Dict) and n.keys and all(isinstance(k, ast.Constant) for k in n.keys)]:
+        ks = [k.value for k in d.keys]
+        if "store_depth" in ks:
+            re_.inst(f"main -chs props keys {ks}")
+            re_.ob()
+            if sorted(ks) != sorted(req):
+                re_.fail(main, d, f"-chs builds properties {ks}; the API requires {req}", A.p.loc(main, d))
+            for k, v in zip(d.keys, d.values):
+                if k.value in ("store_depth", "store_width") and not (isinstance(v, ast.Call) and norm(v.func) == "int"):
+                    re_.fail(main, d, f"-chs passes {k.value} as a string", A.p.loc(main, d))
+                want = {"store_path": "store_path", "store_depth": "depth", "store_width": "width", "store_algorithm": "algorithm",
+                        "store_metadata_namespace": "formatid"}[k.value] if k.value in req else None
+                if want and f"'{want}'" not in norm(v):
+                    re_.fail(main, d, f"-chs takes {k.value} from `{norm(v)}`", A.p.loc(main, d))
+    rules.append(re_)
+    return rules
